@@ -561,7 +561,7 @@ class Seq:
         return Seq('bytes', None, items=list(b))
 
     @staticmethod
-    def fresh(kind, name, elem='int', n=None, lo=None, hi=None):
+    def fresh(kind, name, elem='int', n=None, lo=None, hi=None, inp=True):
         """havoc'd sequence backed by an uninterpreted array; element range lo<=e<hi assumed"""
         st = cur()
         arr = z3.Array(st.fresh_name(name + '_a'), z3.IntSort(), z3.IntSort())
@@ -575,7 +575,8 @@ class Seq:
             k = z3.Int(st.fresh_name('k'))
             st.assume(z3.ForAll([k], z3.And(arr[k] >= lo, arr[k] < hi)))
             st.range_facts.append((arr, lo, hi))
-        st.note_input_seq(name, s, arr)
+        if inp:
+            st.note_input_seq(name, s, arr)      # unit inputs only: havoc'd program variables are not replay inputs
         return s
 
     def concrete_len(self):
@@ -708,6 +709,22 @@ def seq_concat(a, b):
     return r
 
 
+def cite(c, a, b):
+    """If(c, a, b), resolved when the quantifier-free path condition decides c (keeps terms small)"""
+    c = ssimplify(c)
+    if z3.is_true(c):
+        return a
+    if z3.is_false(c):
+        return b
+    st = cur()
+    if st is not None:
+        if st.quick(c):
+            return a
+        if st.quick(z3.Not(c)):
+            return b
+    return z3.If(c, a, b)
+
+
 def seq_slice(s, lo, hi):
     """s[lo:hi] with python clamping semantics (A4); lo/hi python int, SInt or None"""
     s = to_seq(s)
@@ -720,12 +737,12 @@ def seq_slice(s, lo, hi):
             return default
         xz = zint(x)
         nz = zint(n) if not isinstance(n, int) else z3.IntVal(n)
-        xz = z3.If(xz < 0, xz + nz, xz)
-        return z3.If(xz < 0, z3.IntVal(0), z3.If(xz > nz, nz, xz))
+        xz = cite(xz < 0, xz + nz, xz)
+        return cite(xz < 0, z3.IntVal(0), cite(xz > nz, nz, xz))
     nz = z3.IntVal(n) if isinstance(n, int) else n
     l = norm(lo, z3.IntVal(0))
     h = norm(hi, nz)
-    ln = z3.simplify(z3.If(h > l, h - l, z3.IntVal(0)))
+    ln = z3.simplify(cite(h > l, h - l, z3.IntVal(0)))
     l = z3.simplify(l)
     if z3.is_int_value(ln) and z3.is_int_value(l):
         lv, nv = l.as_long(), ln.as_long()
